@@ -35,7 +35,7 @@ K19 = [
     # statement patterns (one and two statements) with instances in every kind of statement list:
     # function body, if body, except handler, try-else and finally
     (Skeleton("r05_statement_patterns", {"main.py": "def fun({0}):\n    {1} = 0\n    try:\n        {2} = {0} + 1\n    except ValueError:\n        {1} = 0\n    else:\n        {2} = 0\n        print({2})\n    finally:\n        {1} = 0\n        print({1})\n    if {0}:\n        {2} = 0\n    return {1}\nprint(fun(1))\n"}),
-     [("${x} = 0", "${x} = 0"), ("${x} = 0\nprint(${x})", "${x} = 0\nprint(${x})"), ("return ${v}", "return ${v}"), ("${x} = ${y} + 1", "${x} = 1 + ${y}")]),
+     [("${x} = 0", "${x} = 0"), ("${x} = 0", "${x} = 0 + 0"), ("${x} = 0\nprint(${x})", "${x} = 0\nprint(${x})"), ("return ${v}", "return ${v}"), ("${x} = ${y} + 1", "${x} = 1 + ${y}")]),
     # instances in parameter defaults (def and lambda) and in a with header
     (Skeleton("r06_defaults_and_with_items", {"main.py": "import contextlib\n{0} = 2\ndef fun({1}={0} * 3):\n    with contextlib.nullcontext({0} * 3) as {2}:\n        return {1} + {2}\nprint(fun(), (lambda {2}={0} * 3: {2})())\n"}),
      [("${x} * 3", "3 * ${x}")]),
